@@ -398,10 +398,18 @@ def r13_4(ctx, rc):
                          'NAME_KNOWN'}, rule_prefix='mode-replay')
 
 
+def r13_5(ctx, rc):
+    """The memo and the records are keyed by normalised paths (R7.1): two
+    spellings of one file must not get two memo entries / identities."""
+    from .c07 import r7_1
+    r7_1(ctx, rc)
+
+
 RULES = [
     ('R13.1', 'comparison dispatch is exhaustive over the enum', r13_1),
     ('R13.2', 'METADATA observes exactly size and mtime_ns', r13_2),
     ('R13.3', 'HASH observes bytes only; memo keyed by the built flag',
      r13_3),
     ('R13.4', 'the recorded mode is the replayed mode', r13_4),
+    ('R13.5', 'paths are normalised before they key memo and records', r13_5),
 ]
